@@ -40,6 +40,19 @@ pub fn gen(ctx: &mut Ctx) -> Vec<String> {
             out.push(format!("c30.q {kg} | {}", items_of_prog(&t)));
         }
     }
+    // (2b) full-line comment directly followed by an indented line, in every position
+    for _ in 0..ctx.budget(40, 400) {
+        for (t, shape) in comment_then_indent(ctx) {
+            let kg = *ctx.pick(&["default", "default", "kga", "-"]);
+            ctx.count(&format!("q_{shape}"));
+            out.push(format!("c30.q {kg} | {}", items_of_prog(&t)));
+            if ctx.chance(1, 4) {
+                let who = *ctx.pick(&["adm", "ed"]); let sess = if ctx.chance(1, 2) { "s" } else { "n" };
+                ctx.count(&format!("exec_{shape}"));
+                out.push(format!("c30.prog {SETUP} {who} {sess} default | {}", items_of_prog(&t)));
+            }
+        }
+    }
     // (3) execute_program with a session: whole text cut by an inline comment / tolerant meta parser,
     //     later line malformed
     for _ in 0..ctx.budget(150, 1500) {
